@@ -51,7 +51,7 @@ def strategy(tier):
     maxlen = 40 if tier == "quick" else 100
     op = st.tuples(st.sampled_from(OPS_W), st.integers(0, 11), st.integers(0, 11), st.integers(0, 11))
     return st.builds(
-        lambda nplain, nuni, ops: {"nv": nplain + nuni, "nuni": nuni, "ops": [list(o) for o in ops]},
+        lambda nplain, nuni, ops: {"nv": nplain + nuni, "nuni": nuni, "dupuid": bool(ops and ops[0][3] % 4 == 0), "ops": [list(o) for o in ops]},
         st.integers(1, 3),
         st.integers(1, 3),
         st.lists(op, max_size=maxlen),
@@ -93,7 +93,7 @@ def _invariant(w, where):
 
 
 def check_case(case):
-    w = World(case["nv"], case["nuni"])
+    w = World(case["nv"], case["nuni"], None, bool(case.get("dupuid")))
     m = Model(len(w.vs), w.uidx)
     classes = set()
     removed_pairs = set()
